@@ -97,7 +97,24 @@ fn dispatch<P: Property>(p: &P, opts: &Opts, replay_file: Option<PathBuf>) -> i3
     }
 }
 
+/// Every scenario - in a worker thread of a batch, in a child process that
+/// re-executes one scenario or a range of runs, in a replay - executes on a
+/// thread with the same stack size, so that a stack exhaustion found by a
+/// worker reproduces in the child that has to confirm it (the main thread's
+/// 8 MiB would hide what a worker's 2 MiB shows).
 fn main() {
+    let code = std::thread::Builder::new()
+        .stack_size(framework::RUN_STACK)
+        .spawn(real_main)
+        .expect("cannot start the main worker thread")
+        .join();
+    match code {
+        Ok(()) => {}
+        Err(_) => std::process::exit(2),
+    }
+}
+
+fn real_main() {
     let args: Vec<String> = std::env::args().collect();
     if args.len() < 2 {
         usage();
